@@ -22,4 +22,6 @@
 //@ closure 3
 |e: PathError| -> (h: HttpError) ensures is_client_code(status_of(h))
 //@ closure 4
+|e: SerdeJsonError| -> (h: HttpError) ensures is_client_code(status_of(h))
+//@ closure 5
 |e: PathError| -> (h: HttpError) ensures is_client_code(status_of(h))
